@@ -70,6 +70,16 @@ impl Op {
         self.slow = Some(Box::new(f));
         self
     }
+    /// attach a (fast, slow) oracle pair built by `orf`
+    pub fn oracle(mut self, p: (FastFn, SlowFn)) -> Op {
+        self.fast = Some(p.0);
+        self.slow = Some(p.1);
+        self
+    }
+    pub fn slow_boxed(mut self, s: SlowFn) -> Op {
+        self.slow = Some(s);
+        self
+    }
     pub fn weight(mut self, w: f64) -> Op {
         self.weight = w;
         self
